@@ -32,7 +32,12 @@ fn main() {
         std::process::exit(2);
     };
     let mut out = out::Out::new(rule);
+    let _ = std::fs::create_dir_all(&dir);
+    let journal = dir.join("current_case.txt");
+    let _ = std::fs::remove_file(&journal);
+    std::env::set_var("RMH_JOURNAL", &journal);
     registry::generate(prop, tier, seed, &mut out);
+    let _ = std::fs::remove_file(&journal);
     #[cfg(feature = "tracing")]
     {
         use std::sync::atomic::Ordering;
